@@ -88,7 +88,25 @@ EXTRA = {
  "C20": " Also: every read of a persisted JSON names the encoding it was written with; atomic publish temp file in the target's directory; expanduser guarded against RuntimeError; return tags of internal callees by least fixpoint.",
 }
 EXTRA2 = {'C01': ' bytes / str payloads are stored as given (no NumPy string scalar on the way).', 'C02': ' process_record counted as a flow of application counts over the yielded / returned streams; from_generator gets a callable that builds a fresh iterator per pass.', 'C03': ' from_generator gets a fresh iterator per pass.', 'C04': ' every list a session touched is written and reported on exit.', 'C05': ' with expected root digests supplied no path of check() skips computing the current ones.', 'C06': ' readers never use the recorded totals.', 'C07': ' npz arrays of unequal length raise (no zip truncation).', 'C08': " the handle's root is resolved at construction.", 'C09': ' digests recorded on the way up use the configured algorithms.', 'C10': ' the stored label is an equality-preserving copy; a shard is listed only after its file is complete.', 'C11': ' the stored label is an equality-preserving copy; the predicate filter is the first selection stage.', 'C12': ' selection stages compose as filter, first-k, per-kind limit for all 8 option combinations (collection algebra); option parameters are never rebound; unknown file types are refused (evaluated).', 'C13': ' prefill size >= thread count (evaluated for 1..512); no clean-up of the pool when a generator is closed.', 'C14': " leaving the pool's context always stops the workers.", 'C16': ' the hash objects are map(hashes, ..) in order (collection algebra).', 'C18': " _write keeps no per-writer state besides the example store and its error paths do not touch the writer's resources.", 'C19': ' workers leave their loop only on a sentinel; shuffle helpers end by the iterator protocol only; epoch rule evaluated on the CFG specialised on repeat.', 'C20': " create() persists the caller's description first; pydantic validators of persisted models return their argument."}
+EXTRA3 = {
+    'C01': ' no dtype but float32 is stored in a FloatList (float32 itself is a recorded finding: signalling NaNs are quieted); writers keep no per-example scratch state on self.',
+    'C02': ' the interleaving buffer has lower bound >= 1 at every round_robin call; a one-shot iterator is not consumed again after being exhausted.',
+    'C06': ' an existing list is loaded, never recreated, before it is renamed into place.',
+    'C07': ' numpy.load never runs with allow_pickle; the consumer is never blocked on a queue it does not own before re-raising.',
+    'C10': ' the rollover guard evaluated at written = 0 is false for every value of the other conditions (an empty shard is never closed or listed).',
+    'C11': ' an empty (not None) metadata value never replaces the label of a non-empty labelled shard; one-shot selection iterators are consumed once.',
+    'C12': ' tf.data gets a generator factory; one-shot selection iterators are consumed once.',
+    'C13': ' the stop batch of finish_and_reset is unconditional once the queue exists.',
+    'C14': ' the native iterator handle is dropped or replaced only after its __exit__; file_parallelism is never rebound to a value not bounded by itself.',
+    'C15': ' no attribute value bypasses decode_array.',
+    'C16': ' no holder keeps a copy of the DatasetStructure (all hash sites read the live algorithm tuple).',
+    'C17': ' the containment test is made on the complete resolved path of the file that is read.',
+    'C18': ' DatasetFiller.__exit__ publishes on every path, also when the block raised.',
+    'C20': ' the version refusal is not caught inside _load; persisted models set no value-transforming pydantic option.',
+}
 for _k, _v in EXTRA2.items():
+    EXTRA[_k] = EXTRA.get(_k, '') + _v
+for _k, _v in EXTRA3.items():
     EXTRA[_k] = EXTRA.get(_k, '') + _v
 for _pid, _t in EXTRA.items():
     _a, _b, _c = P[_pid]
